@@ -159,7 +159,7 @@ def h04b_shards(tier):
         for ci in range(len(COUNTS)):
             for opc in (0, 5, 4):
                 plan.append((ci, opc, 0 if sum(COUNTS[ci]) == 0 else 3, False))
-        plan += [(1, 0, 5, False), (1, 5, 5, False), (0, 0, 1, True), (2, 0, 4, True), (4, 5, 4, True)]
+        plan += [(1, 0, 5, False), (0, 0, 1, True), (2, 0, 3, True), (4, 5, 3, True)]
         for ci, opc, body, allopts in plan:
             out.append({"counts": ci, "opcode": opc, "body": body, "allopts": allopts, "_timeout": 900, "_path_timeout": 60})
         return out
@@ -427,7 +427,7 @@ HARNESSES = [
             encodes=["dns.message.from_wire", "dns.message._WireReader.read", "dns.message._WireReader._get_question",
                      "dns.message._WireReader._get_section", "dns.message._WireReader._add_error", "dns.message.Message._parse_rr_header",
                      "dns.update.UpdateMessage._parse_rr_header"],
-            bound="12-octet header with symbolic id/flags (opcode class per shard: QUERY, UPDATE, other), 9 section-count patterns with counts <= 2; quick: body of 3 symbolic octets (5 for a whole question, its type in {A,OPT,TSIG,ANY} and class in {IN,ANY}) and continue_on_error / ignore_trailing / raise_on_truncation symbolic (all five options on 5 shards); thorough: every body length <= 6, all five options",
+            bound="12-octet header with symbolic id/flags (opcode class per shard: QUERY, UPDATE, other), 9 section-count patterns with counts <= 2; quick: body of 3 symbolic octets (5 for a whole question in a QUERY, its type in {A,OPT,TSIG,ANY} and class in {IN,ANY}) and continue_on_error / ignore_trailing / raise_on_truncation symbolic (all five options on 3 shards); thorough: every body length <= 6, all five options",
             stubs=["E1", "E5", "E6", "E12"], outside="bodies > 6 octets after the header (record-level depth comes from H04a2); Message.to_text of symbolic headers"),
     Harness("H04c", h04c, h04c_pre, h04c_shards, kind="universal",
             encodes=["dns.name.from_text", "dns.ttl.from_text", "dns.tokenizer.Tokenizer.get", "dns.tokenizer.Token.unescape",
